@@ -9,6 +9,8 @@ CONSTANTS
   MaxMembers <- M40
   MaxClasses = 1
   BaseAlpha <- None
+  MaxBases = 1
+  ClassComments <- NoComment
   TopAlpha <- None
   MaxTops = 0
   CmdKinds <- None
